@@ -44,6 +44,10 @@ def judge(rep, s, m):
                 if s.post is None or H.canon_tree(s.post) != H.canon_tree(s.pre):
                     bad = ("changed", "failed with %s but changed the tree: %r -> %r" % (
                         cls, [e[:2] for e in s.pre][:10], None if s.post is None else [e[:2] for e in s.post][:10]))
+    kc = S.known_class(s) if bad else None
+    if kc:
+        rep.violation(H.step_case(s, model=[list(mout), adm]), "known class " + kc, found_input=True, signature="C06/known/" + kc)
+        return
     if bad and len(rep.violations) < 6:
         rep.violation(H.step_case(s, model=[list(mout), adm]),
                       "%s.%s%r from tree %r — %s" % (s.kind, s.op[0], s.op[1:], [e[:2] for e in s.pre][:10], bad[1]),
